@@ -32,6 +32,12 @@ TRANSPARENT = set(norm(p) for p in [
     "std::hint::must_use", "std::convert::TryInto::try_into", "std::convert::TryFrom::try_from",
     "std::result::Result::<T, E>::ok", "std::io::BufWriter::<W>::get_ref", "std::io::BufWriter::<W>::get_mut",
     "std::sync::Arc::<T>::new", "std::boxed::Box::<T>::new", "std::option::Option::<T>::take",
+    "std::ptr::mut_ptr::<impl *mut T>::cast", "std::ptr::const_ptr::<impl *const T>::cast",
+    "core::slice::<impl [T]>::as_mut_ptr", "core::slice::<impl [T]>::as_ptr",
+])
+# value-or-default adapters: the result is the payload of the first argument or the second argument
+OR_DEFAULT = set(norm(p) for p in [
+    "std::result::Result::<T, E>::unwrap_or", "std::option::Option::<T>::unwrap_or",
 ])
 
 
@@ -154,6 +160,8 @@ class Slicer(object):
             return {("call", "<indirect>", bb, tuple(path))}
         if (p in self.transparent or p in self.local_transparent) and t["args"]:
             return self._operand(t["args"][0], path, visiting)
+        if p in OR_DEFAULT and len(t["args"]) == 2:
+            return self._operand(t["args"][0], path, visiting) | self._operand(t["args"][1], path, visiting)
         # a crate-local function whose result is (a newtype of / a field of) its parameters only
         c = t.get("callee") or {}
         if self.follow_local and c.get("rk") == "item" and c.get("rlocal"):
@@ -214,3 +222,41 @@ def fmt_leaf(l):
     if path:
         s += "." + ".".join(path)
     return s
+
+
+def binops_in(body, bb):
+    """[(lhs local, op, a operand, b operand)] of the binary operations in a block."""
+    out = []
+    for s in body.stmts(bb):
+        if s["k"] == "assign" and s["rv"]["k"] == "binop":
+            out.append((s["lhs"]["l"], s["rv"]["op"], s["rv"]["a"], s["rv"]["b"]))
+    return out
+
+
+def root_local(body, op, through_casts=True):
+    """The local an operand copies (through `_a = copy _b` chains and integer casts); None for constants."""
+    pl = place_of(op)
+    if pl is None:
+        return None
+    l = pl["l"]
+    if pl["p"]:
+        # tuple field of a checked-arithmetic result: (_x.0) - keep the tuple local
+        return ("proj", l, tuple(str(e) if not isinstance(e, dict) else e.get("f", e.get("dc")) for e in pl["p"]))
+    for _ in range(12):
+        defs = body.assignments().get(l, [])
+        if len(defs) != 1 or defs[0][1] == "term":
+            return l
+        rv = defs[0][2]
+        if rv["k"] == "use" or (through_casts and rv["k"] == "cast" and rv.get("ck") == "int2int"):
+            p2 = place_of(rv["op"])
+            if p2 is None:
+                return l
+            if p2["p"]:
+                return l
+            l = p2["l"]
+            continue
+        if rv["k"] == "ref" and rv["place"]["p"] == ["deref"]:
+            l = rv["place"]["l"]          # reborrow `&*x`
+            continue
+        return l
+    return l
